@@ -15,8 +15,36 @@ fn repr(dtype: &str, shape: &[u64], fill: &[u8]) -> Option<ChunkRepresentation> 
     ChunkRepresentation::new(shape, dt, FillValue::new(fill.to_vec())).ok()
 }
 
+/// `c03 vdec`: feed an arbitrary (truncated / corrupted) byte string to the decoder of a chain holding one
+/// variable-length array->bytes codec: `err`, `val <elems>`, or `panic`
+fn exec_vdec(m: &std::collections::BTreeMap<String, String>) -> String {
+    guarded(|| {
+        let json = String::from_utf8(unhex(&m["json"])).unwrap();
+        let mds: Vec<MetadataV3> = match serde_json::from_str(&json) { Ok(x) => x, Err(_) => return "err-json".into() };
+        let chain = match CodecChain::from_metadata(&mds) { Ok(c) => Arc::new(c), Err(_) => return "err-chain".into() };
+        let shape = pnl(&m["shape"]);
+        let rep = match repr(&m["dtype"], &shape, &unhex(&m["fill"])) { Some(r) => r, None => return "err-repr".into() };
+        let bytes = unhex(&m["bytes"]);
+        match chain.decode(bytes.into(), &rep, &CodecOptions::default()) {
+            Ok(d) => format!("val {}", show_elems(&from_array_bytes(None, d))),
+            Err(e) => { let _ = e.to_string(); "err".into() }
+        }
+    })
+}
+
+/// the encoding of `data` by the chain `[json]` (used by the generator to derive malformed values)
+fn encode_with(json: &str, dtype: &str, shape: &[u64], fill: &[u8], data: &[Vec<u8>]) -> Option<Vec<u8>> {
+    guarded_res(|| {
+        let mds: Vec<MetadataV3> = serde_json::from_str(json).map_err(|e| e.to_string())?;
+        let chain = CodecChain::from_metadata(&mds).map_err(|e| e.to_string())?;
+        let rep = repr(dtype, shape, fill).ok_or("repr")?;
+        chain.encode(to_array_bytes(None, data), &rep, &CodecOptions::default()).map(|e| e.into_owned()).map_err(|e| e.to_string())
+    }).ok()
+}
+
 pub fn exec(line: &str) -> String {
-    let (_, m) = parse_line(line);
+    let (v, m) = parse_line(line);
+    if v.get(1).map(|s| s == "vdec").unwrap_or(false) { return exec_vdec(&m); }
     guarded(|| {
         let json = String::from_utf8(unhex(&m["json"])).unwrap();
         let mds: Vec<MetadataV3> = match serde_json::from_str(&json) { Ok(x) => x, Err(_) => return "err-json".into() };
@@ -70,6 +98,9 @@ fn payload(rng: &mut Rng, dt: &DType, fill: &[u8], n: u64) -> Vec<Vec<u8>> {
             1 => b"zz".to_vec(),
             2 => fill.to_vec(),
             3 => vec![],                                                                               // empty strings
+            5 => if i == 0 { let len = if rng.chance(1, 4) { rng.range(65530, 70000) } else { rng.range(250, 700) };     // one long element (lengths needing 2 and 3 bytes)
+                             (0..len).map(|j| if dt.name == "string" { b'a' + (j % 26) as u8 } else { (j * 7 + len) as u8 }).collect() }
+                 else if dt.name == "string" { (0..rng.below(5)).map(|_| b'a' + rng.below(26) as u8).collect() } else { let k = rng.below(5) as usize; rng.bytes(k) },
             _ => if i % 2 == 0 { vec![] } else { (0..rng.below(40)).map(|_| b'a' + rng.below(26) as u8).collect() },
         },
     }).collect()
@@ -133,12 +164,26 @@ pub fn generate(tier: &str, seed: u64) -> Vec<String> {
                 }
             }
             None => {
-                match rng.below(3) {
-                    0 => json.push("{\"name\":\"zarrs.vlen_v2\"}".into()),
-                    1 => json.push(if dt.name == "string" { "{\"name\":\"vlen-utf8\"}".to_string() } else { "{\"name\":\"vlen-bytes\"}".to_string() }),
-                    _ => json.push("{\"name\":\"zarrs.vlen\",\"configuration\":{\"index_codecs\":[{\"name\":\"bytes\",\"configuration\":{\"endian\":\"little\"}}],\"data_codecs\":[{\"name\":\"bytes\"}],\"index_data_type\":\"uint64\"}}".into()),
+                // variable-length array->bytes codecs, modelled byte for byte: the numcodecs layout under its four names,
+                // and zarrs' `vlen` with both index types, both index byte orders, optional crc32c on index and data
+                // (an external compressor in a chain: not modelled, round trip only)
+                modelled = true;
+                match rng.below(5) {
+                    0 => { json.push("{\"name\":\"zarrs.vlen_v2\"}".into()); model.push("vlenv2".into()); }
+                    1 => { json.push(if dt.name == "string" { "{\"name\":\"vlen-utf8\"}".to_string() } else { "{\"name\":\"vlen-bytes\"}".to_string() }); model.push("vlenv2".into()); }
+                    2 if rng.chance(1, 2) => { json.push("{\"name\":\"vlen-array\"}".into()); model.push("vlenv2".into()); }
+                    _ => {
+                        let i64_ = rng.chance(1, 2);
+                        let ibig = rng.chance(1, 2);
+                        let icrc = rng.chance(1, 3);
+                        let dkind = rng.below(5);   // 0,1: bytes  2: bytes+crc32c  3: bytes(endian given)  4: bytes+gzip (not modelled)
+                        let icodecs = format!("{{\"name\":\"bytes\",\"configuration\":{{\"endian\":\"{}\"}}}}{}", if ibig { "big" } else { "little" }, if icrc { ",{\"name\":\"crc32c\"}" } else { "" });
+                        let dcodecs = match dkind { 2 => "{\"name\":\"bytes\"},{\"name\":\"crc32c\"}", 3 => "{\"name\":\"bytes\",\"configuration\":{\"endian\":\"big\"}}", 4 => "{\"name\":\"bytes\"},{\"name\":\"gzip\",\"configuration\":{\"level\":5}}", _ => "{\"name\":\"bytes\"}" };
+                        json.push(format!("{{\"name\":\"zarrs.vlen\",\"configuration\":{{\"index_codecs\":[{}],\"data_codecs\":[{}],\"index_data_type\":\"{}\"}}}}", icodecs, dcodecs, if i64_ { "uint64" } else { "uint32" }));
+                        if dkind == 4 { modelled = false; model.push("vlen:x".into()); }
+                        else { model.push(format!("vlen:{}:{}:{}:{}", if i64_ { 64 } else { 32 }, if ibig { "big" } else { "little" }, icrc as u8, (dkind == 2) as u8)); }
+                    }
                 }
-                model.push("vlen".into());
             }
         }
         // bytes -> bytes
@@ -196,6 +241,35 @@ pub fn generate(tier: &str, seed: u64) -> Vec<String> {
         out.push(format!("c03 codec dtype={} es={} shape={} fill={} modelled={} model={} json={} data={}", dt.name,
             dt.es.map(|e| e.to_string()).unwrap_or("v".into()), nl(&shape), hex(&fill.1), modelled as u8, model.join("|"),
             hex(format!("[{}]", json.join(",")).as_bytes()), show_elems(&data)));
+        // malformed values for the variable-length codecs: the bare array->bytes codec decodes truncations, bit flips,
+        // extended and tampered versions of a genuine encoding; the model must agree on accept/reject and on the value
+        if dt.es.is_none() && nel <= 36 {
+            if let Some(tok) = model.iter().find(|t| t.starts_with("vlen") && *t != "vlen:x") {
+                let a2b = json.iter().find(|j| j.contains("vlen")).unwrap();
+                let cj = format!("[{}]", a2b);
+                if let Some(enc) = encode_with(&cj, dt.name, &[nel], &fill.1, &data) {
+                    let mut variants: Vec<Vec<u8>> = vec![enc.clone()];
+                    if !enc.is_empty() {
+                        variants.push(enc[..enc.len() - 1].to_vec());
+                        variants.push(enc[..rng.below(enc.len() as u64) as usize].to_vec());
+                        variants.push(enc[..rng.below(enc.len().min(24) as u64) as usize].to_vec());
+                        for _ in 0..3 { let mut e = enc.clone(); let p = rng.below(e.len() as u64) as usize; e[p] ^= 1 << rng.below(8); variants.push(e); }
+                        // flips in the first bytes (count / index length / first offsets or lengths)
+                        for _ in 0..2 { let mut e = enc.clone(); let p = rng.below(e.len().min(28) as u64) as usize; e[p] ^= 1 << rng.below(8); variants.push(e); }
+                        let mut e = enc.clone(); let extra = 1 + rng.below(6) as usize; e.extend_from_slice(&rng.bytes(extra)); variants.push(e);
+                        if tok.starts_with("vlen:") && enc.len() >= 8 {
+                            // the index length field: one more than there is, far too large, the largest u64, zero
+                            let il = u64::from_le_bytes(enc[0..8].try_into().unwrap());
+                            for v in [il + 1, (enc.len() as u64).saturating_sub(7), 1u64 << 40, u64::MAX, u64::MAX - 7, 0] { let mut e = enc.clone(); e[0..8].copy_from_slice(&v.to_le_bytes()); variants.push(e); }
+                        }
+                    }
+                    let glen = rng.below(40) as usize; variants.push(rng.bytes(glen));
+                    for v in variants {
+                        out.push(format!("c03 vdec codec={} dtype={} shape={} fill={} json={} bytes={}", tok, dt.name, nel, hex(&fill.1), hex(cj.as_bytes()), hex(&v)));
+                    }
+                }
+            }
+        }
     }
     out
 }
